@@ -386,6 +386,9 @@ int zsim_main(int argc, char** argv) {
       Plan p = w->generate(run_seed(seed, idx), tier);
       Result r = run_inproc(w, p, tier, false);
       printf("R %s\n", result_json(idx, r, p.ops.size()).str().c_str());
+      // after a failed run the process state is suspect (abandoned tasks, statics of the code under test): the driver
+      // starts a fresh worker for the remaining indices
+      if (!r.ok) break;
       if (tl > 0 && wall() - t0 > tl) break;
     }
     Json c = Json::obj();
